@@ -16,6 +16,8 @@
 (*   names      UTF-16 strings are returned exactly, whatever they start     *)
 (*              with                                                         *)
 (*   misc       the largest of the five MISC_INFO layouts that fits          *)
+(*   crashpad   annotation objects by type; strings are length-prefixed       *)
+(*   sysinfo    the CPU description of x86 / x86-64, same in both byte orders *)
 (*   padding    counted 32-bit lists are accepted with 0 or 4 bytes between  *)
 (*              the count and the entries, and mean the same items           *)
 (* Byte order is an input of the ELF debug-id rule and of nothing else.      *)
@@ -43,6 +45,7 @@ StackKinds == {"own", "fallback", "missing"}
 NameKinds == {"plain", "bom_fe", "bom_ff", "nonbmp", "empty", "bom_only", "nul_inside"}
 Placements == {"disjoint", "adjacent", "top", "low_and_top"}
 DirTypes == {"names", "misc", "unused"}
+AnnKinds == {"str", "str_unterminated", "invalid", "user", "unsupported"}
 DirEntries == [type : DirTypes, variant : {"A", "B"}]
 SeqsUpTo(S, n) == UNION {[1..k -> S] : k \in 0..n}
 Models(fc) ==
@@ -53,6 +56,9 @@ Models(fc) ==
     [] fc = "directory" -> [dir : SeqsUpTo(DirEntries, MaxDir)]
     [] fc = "names" -> [site : {"module", "thread", "unloaded", "csd", "bootargs", "handle_type"}, kind : NameKinds]
     [] fc = "misc" -> [layout : 1..5, pad : {0, 4}]
+    \* Crashpad annotation objects of each type; a string value is length-prefixed, so whether a 0 byte follows it is immaterial
+    [] fc = "crashpad" -> [objs : SeqsUpTo(AnnKinds, 2), simple : 0..2, list : 0..2, mods : 1..2]
+    [] fc = "sysinfo" -> [cpu : {"x86", "amd64", "arm64"}, vendor : {"GenuineIntel", "AuthenticAMD"}, rev : {"r0", "r1"}]
 Init == /\ facet \in Facets /\ endian \in {"little", "big"} /\ m \in Models(facet)
         /\ i = 1 /\ served = [t \in DirTypes |-> 0] /\ phase = "walk"
 \* ---- the directory walk (Minidump::read): a BTreeMap insert per entry, so a later entry replaces an earlier one
@@ -77,8 +83,12 @@ ModuleExpect == IF facet # "modules" THEN <<>> ELSE
 ByAddr == IF facet # "modules" THEN <<>> ELSE IF Len(m.mods) = 2 /\ m.order = "desc" THEN <<2, 1>> ELSE [k \in 1..Len(m.mods) |-> k]
 MiscFields(layout) == CASE layout = 1 -> {"pid", "times"} [] layout = 2 -> {"pid", "times", "power"} [] layout = 3 -> {"pid", "times", "power", "integrity", "timezone"}
                         [] layout = 4 -> {"pid", "times", "power", "integrity", "timezone", "build"} [] layout = 5 -> {"pid", "times", "power", "integrity", "timezone", "build", "xstate"}
+AnnExpect == IF facet # "crashpad" THEN <<>> ELSE
+   [k \in 1..Len(m.objs) |-> CASE m.objs[k] \in {"str", "str_unterminated"} -> "string" [] m.objs[k] = "invalid" -> "invalid" [] m.objs[k] = "user" -> "user_defined" [] OTHER -> "unsupported"]
+\* the CPU description: 32-bit x86 shows the CPUID vendor string (the same string in either byte order), x86 and x86-64 show family / model / stepping
+CpuInfoRule == IF facet # "sysinfo" THEN "none" ELSE CASE m.cpu = "x86" -> "vendor_family_model_stepping" [] m.cpu = "amd64" -> "family_model_stepping" [] OTHER -> "other"
 TypeOK == phase \in {"walk", "done"} /\ i \in 1..(MaxDir + 1)
 Emit == phase = "done" => PrintT(<<"CASE", ToJson([facet |-> facet, endian |-> endian, m |-> m, served |-> served,
                                                     threads |-> ThreadExpect, modules |-> ModuleExpect, byAddr |-> ByAddr,
-                                                    misc |-> IF facet = "misc" THEN MiscFields(m.layout) ELSE {}])>>)
+                                                    misc |-> IF facet = "misc" THEN MiscFields(m.layout) ELSE {}, ann |-> AnnExpect, cpuinfo |-> CpuInfoRule])>>)
 ====
